@@ -592,11 +592,13 @@ fn main() {
     let mut case = a.num("--first-case", 0);
     let mut rng = Rng::new(a.num("--seed", 1));
     let (mut replayed, mut fast, mut slow, mut drift, mut sampled, mut drift_dup) = (0u64, 0u64, 0u64, 0u64, 0u64, 0u64);
+    let mut drift_untraced = 0u64;
     if let Some(f) = a.get("--scenarios") {
         // streamed line by line (thorough emits > 10^6 scenarios)
         use std::io::BufRead;
         let rd = std::io::BufReader::new(std::fs::File::open(f).expect("open scenarios"));
         let every = a.num("--sample-every", 1).max(1);
+        let max_drift = a.num("--max-drift-traces", 2000);
         let off = rng.below(every);
         let scns = rd.lines().map(|l| l.unwrap()).filter(|l| !l.trim().is_empty()).map(|l| serde_json::from_str::<Value>(&l).expect("json"));
         for (k, scn) in scns.enumerate() {
@@ -641,6 +643,12 @@ fn main() {
             }
             if same && contract_ok {
                 sampled += 1;
+            }
+            // a tree that deviates everywhere would put every scenario on the slow path: trace the first `max_drift` drifting
+            // scenarios (plenty for a verdict), count the rest
+            if !same && slow - sampled >= max_drift {
+                drift_untraced += 1;
+                continue;
             }
             slow += 1;
             write_case(&mut t, case, &c, &obs, &oc, json!({"scn":k,"pred":pred,"drift":!same,"contract_ok":contract_ok}));
@@ -715,7 +723,7 @@ fn main() {
     t.flush();
     println!(
         "{}",
-        json!({"cases": case, "lines": t.lines, "replayed": replayed, "fast_path": fast, "slow_path": slow, "drift": drift, "drift_dup_index": drift_dup, "dup": n_dup, "subtick": n_sub, "nowriter": n_now, "burst_sizes": burst_sizes,
+        json!({"cases": case, "lines": t.lines, "replayed": replayed, "fast_path": fast, "slow_path": slow, "drift": drift, "drift_dup_index": drift_dup, "drift_untraced": drift_untraced, "dup": n_dup, "subtick": n_sub, "nowriter": n_now, "burst_sizes": burst_sizes,
                "sampled": sampled, "random": n_random, "det": det_done, "det_skipped": det_skipped})
     );
 }
